@@ -19,8 +19,8 @@ Two phases, as in the language specification:
 Dialects: "jls" is the rule above.  "javac" is the one deviation javac 17 shows (see translate_unicode_escapes); a
 literal is only read the same by every Java tool if both dialects agree, and checks should require both.
 
-Nothing may follow the closing quote.  A raw unpaired surrogate in the text is rejected, because it cannot be stored in
-a source file in any Unicode encoding.  This module knows nothing about androguard.
+Nothing may follow the closing quote.  A raw unpaired surrogate in the text is an ordinary input unit (it denotes
+itself) although no UTF-8 source file can hold it.  This module knows nothing about androguard.
 """
 
 HEX = set("0123456789abcdefABCDEF")
@@ -40,28 +40,17 @@ def utf16_units(s):
 
 
 def _raw_units(text):
-    out = []
-    n = len(text)
-    i = 0
-    while i < n:
-        c = ord(text[i])
-        if 0xD800 <= c <= 0xDBFF:
-            if i + 1 < n and 0xDC00 <= ord(text[i + 1]) <= 0xDFFF:
-                out.append(c)
-                out.append(ord(text[i + 1]))
-                i += 2
-                continue
-            raise JavaLexError("raw unpaired surrogate U+%04X at %d cannot be stored in a source file" % (c, i))
-        if 0xDC00 <= c <= 0xDFFF:
-            raise JavaLexError("raw unpaired surrogate U+%04X at %d cannot be stored in a source file" % (c, i))
-        if c > 0xFFFF:
-            c -= 0x10000
-            out.append(0xD800 | (c >> 10))
-            out.append(0xDC00 | (c & 0x3FF))
-        else:
-            out.append(c)
-        i += 1
-    return out
+    """The raw input as UTF-16 code units (JLS 3.1).  A raw unpaired surrogate is an input unit like any other here;
+    it cannot be stored in a UTF-8 source file, so callers that feed a real compiler must leave such texts out."""
+    return utf16_units(text)
+
+
+def has_raw_unpaired_surrogate(text):
+    try:
+        text.encode("utf-8")
+        return False
+    except UnicodeEncodeError:
+        return True
 
 
 def _escape_at(raw, i):
